@@ -98,6 +98,8 @@ def certain_events(prog, scripts, inp):
             if st.deployed:
                 out.append(("deploy-ok", s.src, 2))
             if st.executed:
+                # the step reads the plugin's schema between picking up its input and entering the running stage
+                out.append(("schema-read", s.src, 2))
                 out.append(("exec-start", s.src, 1))
                 if st.finishes:
                     out.append(("exec-end", s.src, 1))
